@@ -59,6 +59,12 @@ CLAIMED = {
   "technique": "Lean 4 executable model + proofs of per-entry pruning facts + exact correspondence + implementation-side differential oracle (prune vs code-only build)",
   "design_ref": "4 C17",
  },
+ "C18": {
+  "text": "Lean 4 theorems on the segment model (clone shortcut; otherwise the entries of a walk with the graph's kind, following dynamic imports), built on C15's exact walk characterisation: requesting known roots returns the graph itself; every module/error entry of a segment is the original's entry under the same key (same module with all recorded dependencies, or same error) and every redirect is the original's redirect from an entry-less specifier (segment_slot_faithful / segment_redirect_faithful); the segment contains an entry for exactly the specifiers reachable from the requested roots under the statement's edge relation (segment_contains_exactly_reachable); kind and configured imports carry over. Tied to /repo by correspondence of segment() on built graphs (all kinds; every single module and random pairs as roots) and an implementation-side oracle: dependency resolution with both preferences, validation verdicts, and equality with a direct build of the roots; in worlds without a known-defect trigger equality must hold exactly.",
+  "note": "Equality with a direct build is not a Lean theorem: it is false of the code in identified situations (F6, F12, F15-F19, each reproduced and listed); worlds with several triggers are counted, not attributed. packages / has_node_specifier are cloned wholesale (as the code's own todo notes) and not compared.",
+  "technique": "Lean 4 proof (corollaries of the walk characterisation) + model-vs-implementation correspondence + differential oracle (segment vs original vs direct build)",
+  "design_ref": "4 C18",
+ },
 }
 NOT_APPLICABLE = {}
 ALL = [f"C{i:02d}" for i in range(1, 21)]
